@@ -265,11 +265,16 @@ AUTO = ["f", "none", "__typename", [], [], "none"]
 def undo_typename(sent_sels, auth_sels, path, diffs):
     """compare selection lists; a leading plain __typename the authored list does not start with is the
     documented automatic insertion"""
-    if len(sent_sels) == len(auth_sels) + 1 and sent_sels and sent_sels[0] == AUTO and (
-            not auth_sels or auth_sels[0] != AUTO):
-        sent_sels = sent_sels[1:]
-        diffs.setdefault("auto_typename", 0)
-        diffs["auto_typename"] += 1
+    if len(sent_sels) == len(auth_sels) + 1:
+        # one extra plain __typename, wherever the generator put it
+        for p, s in enumerate(sent_sels):
+            if s == AUTO and (p >= len(auth_sels) or auth_sels[p] != AUTO):
+                sent_sels = sent_sels[:p] + sent_sels[p + 1:]
+                diffs.setdefault("auto_typename", 0)
+                diffs["auto_typename"] += 1
+                break
+            if p >= len(auth_sels) or s[0] != auth_sels[p][0]:
+                break
     if len(sent_sels) != len(auth_sels):
         diffs.setdefault("mismatch", []).append({"path": path, "what": "selection count", "sent": sent_sels, "authored": auth_sels})
         return
